@@ -314,6 +314,8 @@ class HostileCase:
                 t = d.h.transaction_id
                 if t is not None and rng.random() < 0.8:
                     d.cancel(t.source_id.value, t.seq_num.value)
+                elif t is not None and rng.random() < 0.5:
+                    d.cancel(t.source_id.value + 5, t.seq_num.value)      # another entity's transaction with the same number
                 else:
                     d.cancel(cfg.src_id, seq + 1)
             elif r < 0.86:
